@@ -4205,6 +4205,14 @@ fn diff_abi_def(a: &AbiTraitDefinition, b: &AbiTraitDefinition, path: String, is
                     return Some(diff);
                 }
             }
+            if let Some(diff) = diff_schema(
+                &amet.info.return_value,
+                &bmet.info.return_value,
+                format!("{}(return value)", amet.name),
+                true,
+            ) {
+                return Some(diff);
+            }
         }
     }
     return None;
